@@ -152,6 +152,39 @@ func init() {
 				emit(l)
 			}
 		}
+		// every combination of host patterns {exact, *.b.a, *.a, *} and path patterns {exact, /x/y/*, /x/*, /*, *}
+		// in one product, probed at every depth: host class precedence and path precedence under all combinations
+		hostPats := []string{"w.b.a", "*.b.a", "*.a", "*"}
+		pathPats := []string{"/x/y", "/x/y/*", "/x/*", "/*", "*"}
+		var probes []string
+		for _, h := range []string{"w.b.a", "v.b.a", "u.v.b.a", "b.a", "z"} {
+			for _, p := range []string{"/x/y", "/x/y/z", "/x/q", "/q", ""} {
+				probes = append(probes, h+"|"+p)
+			}
+		}
+		q := strings.Join(probes, "~")
+		for hm := 1; hm < 16; hm++ {
+			for pm := 1; pm < 32; pm++ {
+				if !thorough && (hm*31+pm)%4 != 0 {
+					continue
+				}
+				var rules []string
+				k := 0
+				for i, hp := range hostPats {
+					if hm&(1<<uint(i)) == 0 {
+						continue
+					}
+					for j, pp := range pathPats {
+						if pm&(1<<uint(j)) == 0 {
+							continue
+						}
+						rules = append(rules, hp+"!"+pp+"!c"+string(rune('A'+i))+string(rune('0'+j)))
+						k++
+					}
+				}
+				emit("r=" + strings.Join(rules, "&") + ";q=" + q)
+			}
+		}
 	}
 }
 
